@@ -37,18 +37,18 @@ def worker(a):
     try:
         F0 = S.call_sf(h, cell, name, atoms)
         n += 1
-        if rec["extinct"] and abs(F0) > tol:
+        if rec["extinct"] and not (abs(F0) <= tol):
             out.append("F = %r for a reflection extinguished by the space group (|F| must be 0 within %.2g) (%s)" % (F0, tol, tag))
         Fm = S.call_sf([-x for x in h], cell, name, atoms)
         n += 1
-        if abs(Fm - F0.conjugate()) > tol:
+        if not (abs(Fm - F0.conjugate()) <= tol):
             out.append("F(-h) = %r is not the complex conjugate of F(h) = %r without dispersion (%s)" % (Fm, F0, tag))
         for k in ks:
             g, sh = rec["ops"][k]
             Fk = S.call_sf(g, cell, name, atoms)
             n += 1
             want = F0 * cmath.exp(-2j * math.pi * sh / 24.0)
-            if abs(Fk - want) > tol:
+            if not (abs(Fk - want) <= tol):
                 kinds = [str(sp[3]) for sp in atoms_spec]
                 out.append("F(hR) = %r for operation %d (hR = %s, h.t = %d/24), expected F(h).exp(-2 pi i h.t) = %r (|diff| %.3g > %.2g; adp types %s) (%s)" %
                            (Fk, k + 1, g, sh, want, abs(Fk - want), tol, kinds, tag))
